@@ -463,6 +463,50 @@ func run(c *vh.Ctx) error {
 		}
 	}
 
+	// 3b. end to end with the real Voter (C02 hook): its votes, over histories with crashes and restarts, are the raw
+	// material of the evidence
+	nE := c.N(150, 1500)
+	e2eReported := map[string]int{}
+	for i := 0; i < nE; i++ {
+		script := genVoterHistory(c.R, sc.head, 30+c.R.Intn(60))
+		fs, offered, err := sc.e2eCase(drv, script, res.Dist)
+		if err != nil {
+			return fmt.Errorf("e2e case %d: %v\n%s", i, err, strings.Join(script, "\n"))
+		}
+		res.TracesVsImpl++
+		res.Dist("case:e2e-voter-history")
+		res.Count("E2E\n"+strings.Join(script, "\n"), offered > 0)
+		seen := map[string]bool{}
+		for _, f := range fs {
+			key := f.kind + "/" + f.matcher
+			if seen[key] {
+				continue
+			}
+			seen[key] = true
+			e2eReported[key]++
+			res.Dist("failure:e2e:" + key)
+			if e2eReported[key] > 2 {
+				continue
+			}
+			want := f
+			sh := vh.Shrink(script, func(ops []string) bool {
+				g, _, err := sc.e2eCase(drv, ops, func(string) {})
+				if err != nil {
+					return false
+				}
+				for _, x := range g {
+					if x.kind == want.kind && x.matcher == want.matcher {
+						return true
+					}
+				}
+				return false
+			})
+			rp := vh.WriteReplay(c.ReplayDir, "C05", fmt.Sprintf("e2e%d-%s-%d", i, strings.ReplaceAll(key, "/", "-"), c.Seed), c.Seed,
+				[]string{"real Voter history -> evidence", "failure " + f.kind + " " + f.matcher, strings.ReplaceAll(f.what, "\n", " | ")}, append([]string{"E2E"}, sh...))
+			res.Fail(f.kind, f.matcher, f.what, rp)
+		}
+	}
+
 	// 4. chain level: real blocks through builder (slashing) and importers (replaySlashing)
 	if err := chainLevel(c, drv); err != nil {
 		return err
@@ -481,6 +525,16 @@ func run(c *vh.Ctx) error {
 func replayBody(sc *scenario, drv *vh.Driver, body []string) (bool, string) {
 	if len(body) > 0 && strings.HasPrefix(body[0], "CHAIN") {
 		return replayChain(drv, body)
+	}
+	if len(body) > 0 && body[0] == "E2E" {
+		fs, _, err := sc.e2eCase(drv, body[1:], func(string) {})
+		if err != nil {
+			return true, "replay error: " + err.Error()
+		}
+		if len(fs) == 0 {
+			return false, "no failure"
+		}
+		return true, fs[0].kind + "/" + fs[0].matcher + ": " + fs[0].what
 	}
 	_, _, fs, err := sc.evaluate(drv, body)
 	if err != nil {
